@@ -2,6 +2,8 @@
    line `op K T args… = results…` printed by harness/h_recint.cpp (K = size, T = __RECINT_THRESHOLD_KARA as compiled). -/
 import Driver.Common
 import GivaroModel.Model.RecInt
+import GivaroModel.Model.RecIntSigned
+import GivaroModel.Model.RecIntWords
 import GivaroModel.Spec.RecIntSpec
 import GivaroModel.Spec.RecIntMixedSpec
 -- @driver-mode recint Driver.RecInt.recintLine
@@ -73,6 +75,7 @@ def recintModel (op : String) (n t : Nat) (a : List Nat) : Option (List Int) :=
   | "bits", [x] => some [bi (highest_bit (U x)), bi (lowest_bit (U x)), vi (set_highest_bit (U x)), vi (set_lowest_bit (U x))]
   | "gcd", [x, y] => some [vi (gcd t (U x) (U y))]
   | "invmod", [x, y] => some [vi (inv_mod t (U x) (U y))]
+  | "bezout", [x, y] => let r := bezout_mod t (U x) (U y); some [vi r.1, vi r.2]
   | "expmod", [x, e, y] => some [vi (exp_mod t (U x) (U e) (U y))]
   | "expmodl", [x, e, y] => some [vi (exp_mod_l t (U x) e (U y))]
   | "arazi", [x] => some [vi (arazi_qi t (U x))]
@@ -87,6 +90,48 @@ def recintConvModel (op : String) (n : Nat) (a : List Int) : Option (List Int) :
   | "cvu_back", [z] => some (List.replicate 4 (ruint_to_mpz (ofNat n z.toNat)))
   | "cvs_from", [z] => some (List.replicate 7 (toS (val (mpz_to_rint n z))))
   | "cvs_back", [z] => some (List.replicate 4 (rint_to_mpz (ofNat n (z % (Bn n : Int)).toNat)))
+  -- built-in words and doubles (the C casts `(int32_t)w`, … made by the harness are `wrapS32`, `% 2^32`, …)
+  | "cvu_word", [w] =>
+      some [vi (u_of_signed n w), vi (ofLimb n (w % 18446744073709551616).toNat), vi (u_of_signed n (Givaro.wrapS32 w)),
+            vi (ofLimb n (w % 4294967296).toNat), vi (u_of_signed n w)]
+  | "cvs_word", [w] =>
+      some [toS (val (u_of_signed n w)), toS (val (ofLimb n (w % 18446744073709551616).toNat)), toS (val (u_of_signed n (Givaro.wrapS32 w))),
+            toS (val (ofLimb n (w % 4294967296).toNat)), toS (val (u_of_signed n w))]
+  | "cvu_toword", [z] => let a := ofNat n z.toNat
+      some [(to_u64 a : Int), to_s64 a, (to_u32 a : Int), to_s32 a, bi (to_bool a)]
+  | "cvs_toword", [z] => let a := ofNat n (z % (Bn n : Int)).toNat
+      some [to_s64 a, (to_u64 a : Int), to_s32 a]
+  | "cvu_dbl", [d] => some [vi (u_of_double n d), (u_to_double (ofNat n d.natAbs) : Int)]
+  | "cvs_dbl", [d] => some [toS (val (u_of_double n d)), s_to_double (ofNat n (d % (Bn n : Int)).toNat)]
+  | "cvu_todbl", [z] => some [(u_to_double (ofNat n z.toNat) : Int)]
+  | "cvs_todbl", [z] => some [s_to_double (ofNat n (z % (Bn n : Int)).toNat)]
+  | _, _ => none
+
+/-- the `rint<K>` wrappers: the arguments are signed values, the model works on their two's-complement images -/
+def recintSignedModel (op : String) (n t : Nat) (a : List Int) : Option (List Int) :=
+  let I (x : Int) : RU n := ofNat n (x % (Bn n : Int)).toNat
+  let rd {k : Nat} (r : RU k) : Int := if 2 * val r < Bn k then (val r : Int) else (val r : Int) - Bn k
+  match op, a with
+  | "sadd", [b, c] | "saddop", [b, c] => some [rd (s_add (I b) (I c))]
+  | "smul", [b, c] | "smulop", [b, c] => some [rd (s_mul t (I b) (I c))]
+  | "saddeq", [b, c] => let x := rd (s_add (I b) (I c)); let y := rd (s_mul t (I b) (I c)); some [x, x, y, y]
+  | "ssub", [b, c] => some (List.replicate 4 (rd (s_sub (I b) (I c))))
+  | "sneg", [b] => some [rd (s_neg (I b)), rd (s_neg (I b)), rd (s_not (I b))]
+  | "sbit", [b, c] => let r := [rd (land (I b) (I c)), rd (lor (I b) (I c)), rd (lxor (I b) (I c))]; some (r ++ r)
+  | "saddmul", [x, b, c] => some [rd (s_addmul t (I x) (I b) (I c))]
+  | "scmp", [x, y] => let k := s_cmp (I x) (I y)
+      some (k :: [decide (k < 0), decide (k ≤ 0), decide (k > 0), decide (k ≥ 0), decide (k = 0), decide (k ≠ 0)].map bi)
+  | "slmul", [b, c] => some [rd (s_lmul t (I b) (I c))]
+  | "slsq", [b] => some [rd (s_lsquare t (I b))]
+  | "sext", [b] => some [rd (s_ext (I b))]
+  | "sdivq", [x, y] => some [rd (s_divq t (I x) (I y))]
+  | "sdivr", [x, y] => some [rd (s_divr t (I x) (I y))]
+  | "sdivop", [x, y] | "sdiveq", [x, y] => some [rd (s_divq t (I x) (I y)), rd (s_divr t (I x) (I y))]
+  | "smodn", [x, y] => some [rd (s_modn t (I x) (I y))]
+  | "smodn2", [x, y] => some [rd (s_modn2 t (ofNat (n+1) (x % (Bn (n+1) : Int)).toNat) (I y))]
+  | "sinvmod", [x, y] => some [rd (s_invmod t (I x) (I y))]
+  | "sshl", [b, d] => some (List.replicate 2 (rd (s_shl (I b) d.toNat)))
+  | "sshr", [b, d] => some (List.replicate 2 (rd (s_shr (I b) d.toNat)))
   | _, _ => none
 
 /-- mixed operands: `mx_<form> K 0 cls ty x w y = rt res…` -/
@@ -141,7 +186,10 @@ def recintLine (line : String) : String :=
           | none => if res == ["EXC"] then s!"DIFF kind=SPEC model=- | {line.trimAscii.toString}" else "BAD result | " ++ line
           | some ir =>
             let specOk := chk ir
-            let model := if op.startsWith "cv" || op == "cmpsl" then recintConvModel op (K - 6) a else recintModel op (K - 6) t (a.map Int.toNat)
+            let model := if op.startsWith "cv" || op == "cmpsl" then recintConvModel op (K - 6) a
+                         else match recintSignedModel op (K - 6) t a with
+                           | some r => some r
+                           | none => recintModel op (K - 6) t (a.map Int.toNat)
             let modelOk := match model with | none => true | some mr => mr == ir
             if specOk && modelOk then "OK"
             else
